@@ -99,6 +99,8 @@ func pubKey2EthAddr(pubKey []byte) string {
 	}
 	// just format as eth address if pubkey not compatible
 	var a common.Address
-	a.SetBytes(crypto.Keccak256(pubKey[1:])[12:])
+	if len(pubKey) > 0 {
+		a.SetBytes(crypto.Keccak256(pubKey[1:])[12:])
+	}
 	return a.String()
 }
